@@ -854,7 +854,9 @@ func c14CannotOverwrite(p *Prog, f *ssa.Function, in ssa.Instruction, cfgT *type
 					if bo.Op == token.NEQ {
 						t = iff.Block().Succs[1] // if cfg.limiter != nil { return }
 					}
-					if t == st.Block() || t.Dominates(st.Block()) {
+					// the store is behind that EDGE: the successor is entered only from this test (a successor shared
+					// with another test - "a != nil && b != nil" - is also reached with the field set)
+					if len(t.Preds) == 1 && (t == st.Block() || t.Dominates(st.Block())) {
 						okG = true
 					}
 				}
